@@ -144,3 +144,91 @@ fn c39_mustfail_always_ok() {
     kani::assume(bytes <= MAXB);
     assert!(vs::is_ok_forget(b.allocate(pool, bytes)).is_some());
 }
+
+// ------------------------------------------------------------------------------------------------
+// PeriodicBudgetTracker: the tracker's claim on the budget (what Drop will release) always equals what
+// it successfully allocated — otherwise releasing "everything" does not return the pool to its old level
+// ------------------------------------------------------------------------------------------------
+
+/// an arbitrary tracker state over `b` with the invariant  last_reported <= total  and
+/// pool counter >= last_reported (what the tracker holds is really allocated)
+fn any_tracker<'a>(b: &'a MemoryBudget, pool: Pool, k: usize, u: &[usize; 5]) -> PeriodicBudgetTracker<'a> {
+    let mut t = PeriodicBudgetTracker::new(b, pool);
+    let (total, last): (usize, usize) = (kani::any(), kani::any());
+    kani::assume(last <= total && total <= (1usize << 60) && last <= u[k]);
+    t.total_bytes = total;
+    t.last_reported_bytes = last;
+    t
+}
+
+//@ props=C39 kind=proof
+/// track(bytes) step: on Ok the pool grew by exactly (last_reported' - last_reported) — the tracker's claim
+/// moves in lock-step with its successful allocations; other pools untouched
+#[kani::proof]
+#[kani::unwind(2)]
+#[kani::stub(eyre::capture_handler, vs::capture_handler)]
+#[kani::stub(eyre::private::new_adhoc, vs::new_adhoc)]
+#[kani::stub(eyre::private::format_err, vs::format_err)]
+#[kani::stub(alloc::fmt::format, vs::format)]
+fn c39_tracker_track_step() {
+    let (b, u, _lim) = any_budget();
+    let (pool, k) = any_pool();
+    let mut t = any_tracker(&b, pool, k, &u);
+    let last0 = t.last_reported_bytes;
+    let bytes: usize = kani::any();
+    kani::assume(bytes <= 1 << 40);
+    let ok = vs::is_ok_forget(t.track(bytes)).is_some();
+    let c = counters(&b);
+    let w: usize = kani::any();
+    kani::assume(w < 5);
+    if ok {
+        if w == k { assert!(c[w] - u[w] == t.last_reported_bytes - last0); } else { assert!(c[w] == u[w]); }
+        assert!(t.tracked_bytes() == t.last_reported_bytes);
+    } else {
+        assert!(c[w] == u[w] && t.last_reported_bytes == last0);
+    }
+    core::mem::forget(t);
+}
+
+//@ props=C39 kind=proof
+/// pre_allocate(bytes) step: on Ok the pool grew by exactly `bytes` and so did the tracker's claim
+/// (last_reported' - last_reported == bytes); on Err nothing moved
+#[kani::proof]
+#[kani::unwind(2)]
+#[kani::stub(eyre::capture_handler, vs::capture_handler)]
+#[kani::stub(eyre::private::new_adhoc, vs::new_adhoc)]
+#[kani::stub(eyre::private::format_err, vs::format_err)]
+#[kani::stub(alloc::fmt::format, vs::format)]
+fn c39_tracker_pre_allocate_step() {
+    let (b, u, _lim) = any_budget();
+    let (pool, k) = any_pool();
+    let mut t = any_tracker(&b, pool, k, &u);
+    let last0 = t.last_reported_bytes;
+    let bytes: usize = kani::any();
+    kani::assume(bytes <= 1 << 40);
+    let ok = vs::is_ok_forget(t.pre_allocate(bytes)).is_some();
+    let c = counters(&b);
+    if ok {
+        assert!(c[k] - u[k] == bytes);
+        assert!(t.last_reported_bytes - last0 == bytes);
+    } else {
+        assert!(c[k] == u[k] && t.last_reported_bytes == last0);
+    }
+    core::mem::forget(t);
+}
+
+//@ props=C39 kind=proof
+/// Drop releases exactly the tracker's claim: the pool drops by last_reported_bytes, other pools untouched
+#[kani::proof]
+#[kani::unwind(2)]
+fn c39_tracker_drop_releases_claim() {
+    let (b, u, _lim) = any_budget();
+    let (pool, k) = any_pool();
+    let t = any_tracker(&b, pool, k, &u);
+    let claim = t.last_reported_bytes;
+    drop(t);
+    let c = counters(&b);
+    let w: usize = kani::any();
+    kani::assume(w < 5);
+    if w == k { assert!(c[w] == u[w] - claim); } else { assert!(c[w] == u[w]); }
+}
